@@ -25,7 +25,7 @@ LEVEL = {
  "C11": ("theorems: the parser's key container is order-free of any hash seed (ordered list), and the writer's output does not depend on the iteration order of its key set; runtime repetition across threads and processes in the harness (partial: schedules cannot be exhibited by the model)", "3 (C11)"),
  "C12": ("theorems on arbitrary text and as ONE theorem over whole playlists: the closure of the presentation changes on the cleaned lines (comments, redundant version tags, any spelling of a tag's attribute list for every attribute-list tag incl. METHOD=NONE keys and both variant tags, permuted free tags; CRLF / blank lines / padding do not change the cleaned lines) leaves the parse result unchanged (C12_restyle_media/master, C12_restyle_rules, C12_restyle_attribute_lines, C12_restyle_variant_lines); correspondence + oracle over re-rendered and transformed texts, foreign attribute names, and == of the parsed values", "3 (C12)"),
  "C13": ('theorem: validation accepts iff the playlist is consistent (groups defined, CLOSED-CAPTIONS=NONE exclusive in either order, session data unique); rendition lookup = referenced renditions except the stated known class; correspondence exhaustive over small configurations, size sweeps, and MasterPlaylistBuilder call sequences', "3 (C13)"),
- "C14": ("theorems: per-tag acceptance equals the attribute rules over all attribute lists (keys, EXT-X-MEDIA, date ranges, session data, and both stream tags as an iff: C14_key_iff, C14_media_iff, C14_streaminf_iff, C14_iframe_iff); correspondence exhaustive over presence subsets for text and builders", "3 (C14)"),
+ "C14": ("theorems: per-tag acceptance equals the attribute rules over all attribute lists (keys, EXT-X-MEDIA, date ranges, session data, start, map and both stream tags as an iff over the attribute text: C14_key_iff, C14_media_iff, C14_daterange_iff, C14_session_data_iff, C14_start_iff, C14_map_iff, C14_streaminf_iff, C14_iframe_iff); correspondence exhaustive over presence subsets for text and builders", "3 (C14)"),
  "C15": ("theorem: for every string, not both parsers accept; accepted master texts contain no media item or bare URI, accepted media texts no master item and a TARGETDURATION item; foreign-tag tables regenerated from source; correspondence exhaustive over short line sequences", "3 (C15)"),
  "C16": ("theorems: accepted extension keeps the common segments (numbers and content); appending lines appends items; a text cut after a segment tag (also with non-URI lines behind it: C16_cut_pending) or after EXT-X-STREAM-INF is rejected; the slid window of every parse result with durations below 2^20 s re-parses to the same remaining segments (C16_slide_parsed); correspondence + oracle over every prefix and slide, incl. deterministic rotations of three / four key formats", "3 (C16)"),
  "C17": ('theorem over the regenerated table: every hand-written into_owned rebuilds each declared field from the field of the same name and variant; the three entry points are one function in the model; correspondence: ==, dump and text of x, clone, into_owned for parsed values, for playlists built by builder call sequences and for values built through the public constructors', "3 (C17)"),
